@@ -394,6 +394,7 @@ theorem relayoutFvG_post (sg : Bool) (i : FvInfo) (buf : Bytes) (files : List Fi
   refine postA_ite (fun _ => postA_err) (fun hblk => ?_)
   have hblk' : i.blocks ≠ [] := by
     intro h; rw [h] at hblk; simp at hblk
+  refine postA_ite (fun _ => postA_err) (fun _ => ?_)
   refine postA_bind' (R := fun hdr _ => hdr.length = i.dataOffset) ?_ ?_
   · refine postA_ite (fun _ => ?_) (fun heq => ?_)
     · exact postA_sliceToG hdo (by simp; omega)
